@@ -2,10 +2,14 @@ package main
 
 import (
 	"bytes"
+	"encoding/binary"
 	"fmt"
+	"io"
 	"net"
 	"strings"
+	"time"
 
+	"github.com/honeytrap/honeytrap/listener"
 	"github.com/honeytrap/honeytrap/listener/agent"
 )
 
@@ -226,4 +230,102 @@ func genC16Codec(tier string, r *Rng) {
 		args = append(args, fmt.Sprintf("t/%s/%d", hx(net.ParseIP(fmt.Sprintf("2001:db8::%x", i+1))), 1000+i*250))
 	}
 	runCodec(args)
+}
+
+// runAgentWrite: one real session; the stub service answers the first byte with a single Write of n bytes; the
+// payload lengths of the messages the agent receives for it are compared with the model's `chunks m n`.
+//
+// case line: agentcodec write <m> <n>   (m = the implementation's message limit, learnt from a large write)
+func agentWriteLens(n int) ([]int, bool) {
+	l, _ := agent.New()
+	srv, cli := tcpPair()
+	sessDone := make(chan struct{})
+	go func() { defer close(sessDone); agent.VerifServe(l, srv) }()
+	defer func() {
+		cli.Close()
+		select {
+		case <-sessDone:
+		case <-time.After(3 * time.Second):
+		}
+	}()
+	go func() {
+		c, err := l.(listener.Listener).Accept()
+		if err != nil || c == nil {
+			return
+		}
+		buf := make([]byte, 16)
+		if k, _ := c.Read(buf); k > 0 {
+			p := make([]byte, n)
+			for i := range p {
+				p[i] = byte(i * 13)
+			}
+			c.Write(p)
+		}
+	}()
+	hs, _ := agent.Handshake{ProtocolVersion: 1, Version: "v", ShortCommitID: "s", CommitID: "c", Token: "tok"}.MarshalBinary()
+	sendFrame(cli, byte(agent.TypeHandshake), hs)
+	la, ra := mkAddr("0a000001", "22", false), mkAddr("01020304", "40000", false)
+	b, _ := agent.Hello{Laddr: la, Raddr: ra}.MarshalBinary()
+	sendFrame(cli, byte(agent.TypeHello), b)
+	b, _ = agent.ReadWriteTCP{Laddr: la, Raddr: ra, Payload: []byte{1}}.MarshalBinary()
+	sendFrame(cli, byte(agent.TypeReadWriteTCP), b)
+	var lens []int
+	total, at := 0, 0
+	ok := true
+	cli.SetReadDeadline(time.Now().Add(5 * time.Second))
+	for total < n || len(lens) == 0 {
+		h := make([]byte, 3)
+		if _, err := io.ReadFull(cli, h); err != nil {
+			return lens, false
+		}
+		body := make([]byte, binary.LittleEndian.Uint16(h[1:]))
+		if _, err := io.ReadFull(cli, body); err != nil {
+			return lens, false
+		}
+		if int(h[0]) != agent.TypeReadWriteTCP {
+			continue
+		}
+		var m agent.ReadWriteTCP
+		m.UnmarshalBinary(body)
+		for _, x := range m.Payload {
+			if x != byte(at*13) {
+				ok = false
+			}
+			at++
+		}
+		lens = append(lens, len(m.Payload))
+		total += len(m.Payload)
+	}
+	return lens, ok && total == n
+}
+
+func genAgentWrite(tier string, r *Rng) {
+	probe, _ := agentWriteLens(300000)
+	m := 0
+	if len(probe) > 0 {
+		m = probe[0]
+	}
+	fmt.Fprintf(out, "#stat c16_write_message_limit %d\n", m)
+	if m == 0 {
+		emit("@agentwrite probe", "no-messages", "viol:write-not-relayed-in-order:a 300000-byte write produced no data message", false)
+		return
+	}
+	ns := []int{0, 1, m - 1, m, m + 1, 2*m - 1, 2 * m, 2*m + 1, 65535, 65536, 70000, 3*m + 5, 200000}
+	if tier == "thorough" {
+		for i := 0; i < 40; i++ {
+			ns = append(ns, r.Intn(400000))
+		}
+	}
+	for _, n := range ns {
+		lens, ok := agentWriteLens(n)
+		var ls []string
+		for _, k := range lens {
+			ls = append(ls, fmt.Sprint(k))
+		}
+		verdict := "ok"
+		if !ok {
+			verdict = fmt.Sprintf("viol:write-not-relayed-in-order:a Write of %d bytes came back as messages of %v bytes (content or total differs)", n, lens)
+		}
+		emit(fmt.Sprintf("agentcodec write %d %d", m, n), strings.Join(ls, " "), verdict, true)
+	}
 }
